@@ -1,4 +1,4 @@
-CONSTANT Cfg <- Cfg_exc_cancel
+CONSTANT CfgSet <- S_exc_cancel
 INIT MCInit
 NEXT Next
 CHECK_DEADLOCK FALSE
